@@ -289,17 +289,34 @@ def getFull (d : Dict) (keys : List Key) (default : Option Tree) (override : Tre
 
 /-! ### update / merge / refresh / update_defaults -/
 
+/-- the integer an opaque float text such as `"5.0"` / `"-0.0"` equals (floats cross the protocol as JSON text;
+Python's `5.0 == 5` and `1.0 == True` hold, `0.5` equals no integer) -/
+def integralFloat (r : String) : Option Int :=
+  let cs := r.toList
+  let (neg, ds) := match cs with
+    | '-' :: rest => (true, rest)
+    | _ => (false, cs)
+  -- the JSON printer drops a zero fraction ("5.0" is printed "5"): both spellings are accepted
+  let ip := match ds.reverse with
+    | '0' :: '.' :: revInt => revInt.reverse
+    | _ => ds
+  if ip.isEmpty || !ip.all Char.isDigit then .none
+  else
+    let n : Int := ip.foldl (fun (n : Int) c => 10 * n + ((c.toNat - '0'.toNat : Nat) : Int)) 0
+    some (if neg then -n else n)
+
 def atomTruthy : Atom → Bool
   | .none => false
   | .bool b => b
   | .int i => i != 0
   | .str s => s != ""
-  | .opaque r => r != "[]" && r != "0.0"
+  | .opaque r => r != "[]" && integralFloat r != some 0      -- `[]`, `0.0`, `-0.0` are falsy
   | .dev _ _ => true
 
 def atomNum : Atom → Option Int
   | .bool b => some (if b then 1 else 0)
   | .int i => some i
+  | .opaque r => integralFloat r
   | _ => .none
 
 /-- Python `==` on leaves (`True == 1`). -/
@@ -347,7 +364,9 @@ def defaultMatches (defs : Option Tree) (k : Key) (oldv : Tree) : Except Err Boo
       if !atomTruthy a then .ok false else
       match a with
       | .str s => if containsSub s (String.ofList k) then .error .typeError else .ok false  -- `k in "str"`, then `"str"[k]`
-      | .opaque _ => .ok false          -- `k in [..]` on a list of non-matching items
+      | .opaque r =>
+          if r.toList.head? == some '[' then .ok false   -- `k in [..]` on a list of non-matching items
+          else .error .typeError                         -- `k in 2.5`: a float is not iterable
       | _ => .error .typeError          -- `k in 5`
 
 /-- `dk = canonical_name(k, defaults) if defaults else k`: the spelling under which the
